@@ -58,5 +58,30 @@ theorem last_of_last {pre xs ys : List Nat} {c b : Nat} (h : (pre ++ c :: ys).ge
   rw [List.getLast?_append] at h ⊢
   simpa using h
 
+/-- `path_from_to(a, b)` completes and returns a simple path from `a` to `b` -/
+theorem pathFromTo_isSimplePath {t : RTree} (hwf : t.WF) {a b : Nat} (ha : a ∈ ids t)
+    (hb : b ∈ ids t) : ∃ p, pathFromTo t a b = some p ∧ IsSimplePath t p a b := by
+  by_cases hab : a = b
+  · subst hab
+    exact ⟨[a], by simp [pathFromTo], by simp [IsSimplePath, ha, Chain]⟩
+  · obtain ⟨pre, c, xs, ys, hpa, hpb, hd, hp⟩ := pathFromTo_shape hwf ha hb hab
+    refine ⟨_, hp, ?_, ?_, ?_, ?_, ?_⟩
+    · exact head_of_last ((pathDown_ends a).1 t _ hpa).2
+    · exact last_of_last ((pathDown_ends b).1 t _ hpb).2
+    · intro x hx
+      simp only [List.mem_append, List.mem_reverse, List.mem_cons] at hx
+      rcases hx with hx | rfl | hx
+      · exact (pathDown_subset a).1 t _ hpa x (by simp [hx])
+      · exact (pathDown_subset a).1 t _ hpa x (by simp)
+      · exact (pathDown_subset b).1 t _ hpb x (by simp [hx])
+    · have h1 := chain_append_right ((pathDown_chain a).1 t _ hpa)
+      have h2 := chain_append_right ((pathDown_chain b).1 t _ hpb)
+      apply chain_glue
+      · have := chain_reverse h1
+        simp only [List.reverse_cons] at this
+        exact chain_mono (fun x y h => Or.inr h) this
+      · exact chain_mono (fun x y h => Or.inl h) h2
+    · exact nodup_fork' (pathDown_nodup hwf hpa) (pathDown_nodup hwf hpb) hd
+
 end RTree
 end Ptn.C17
